@@ -21,7 +21,9 @@ PyScalars == {<<"py", "pyint", 2>>, <<"py", "pyint", -1>>, <<"py", "pyfloat", <<
 Others(lens, dt2, k) ==
   {<<"ra", ArrP2(dt2, lens, k)>>, <<"ra", ArrP(dt2, OtherLens(lens), k)>>,
    <<"np", dt2, Cell(dt2, k, 2)>>, <<"np", dt2, Cell(dt2, 2, 1)>>,
-   <<"col", dt2, [r \in DOMAIN lens |-> Cell(dt2, k, r + 1)]>>}
+   <<"col", dt2, [r \in DOMAIN lens |-> Cell(dt2, k, r + 1)]>>,
+   \* a column whose FIRST entry is the extreme of its palette (an infinity for floats) and whose later entries are ordinary values
+   <<"col", dt2, [r \in DOMAIN lens |-> IF r = 1 THEN Cell(dt2, 2, 1) ELSE Cell(dt2, 1, r)]>>}
   \cup PyScalars
   \cup (IF lens # <<>> THEN {<<"collist", "pyint", [r \in DOMAIN lens |-> r - 2]>>} ELSE {})
 Init == /\ \E lens \in LenVecs : case = <<"seed", lens>>
